@@ -1,7 +1,7 @@
 """C20 — array geometry helpers share the floor(n/2) centre convention.
 
 Tie: Gen/Util.lean (pad index block for 2-D arrays and cubes, subarray), Gen/Helper.lean (slice_offset), Gen/Helper20.lean
-(boundary_slice), Gen/Hex.lean (hex_directions, ring start, the hex_ring loops as folds, hex_neighbor) are regenerated from the source on every run;
+(boundary_slice), Gen/Hex.lean (hex_directions, ring start, the hex_ring loops and the hex_segments numbering loop as folds, hex_neighbor) are regenerated from the source on every run;
 Model/Geometry.lean (array plumbing, boundary search, rebin, mesh, shapes, ring walk) is hand-written and compared here with
 the real functions: exactly on integer data, with 1e-9 tolerance where sqrt/sin/cos enter (drawn shapes)."""
 import itertools, math, numpy as np
@@ -14,12 +14,12 @@ LEVEL_TEXT = ('Lean 4 theorems, for all shapes/targets/parities: pad (2-D and cu
               'preserves the sum; the centroid of an array that is half-turn symmetric about a sample is that sample (also for any ring of weights: antialiased values), hence the centroid of a drawn circle / rectangle / hexagon with zero shift that is clear of the border is the origin sample floor(n/2) (centroid_of_drawn_shapes), the centroid of an indicator '
               'set is its mean position; mesh coordinates translate under integer '
               'shifts and negate under the half-turn index map; circle/rectangle/hexagon values lie in [0,1], are binary without '
-              'antialiasing, translate under integer shifts (also spider) and are half-turn and mirror symmetric (hexagons in both orientations) — via the closure of their six '
+              'antialiasing, translate under integer shifts (also spider) and are half-turn symmetric and mirror symmetric about the origin ROW (hexagons in both orientations; the column mirror is their composition, not stated separately) — via the closure of their six '
               'edge normals under negation/mirroring, proved for the real angles n·pi/3 + phi; hex_ring is the loop-by-loop translation of the source (hex_ring_translated) and has 6k cells at cube '
-              'distance k, pairwise distinct; a k-ring aperture has 1+3k(k+1) distinct cells minus the dropped numbers in range; for seg_gap > 0 '
+              'distance k, pairwise distinct; the segment numbering is the statement-by-statement translation of the source loop (segment_numbering_translated) and a k-ring aperture has 1+3k(k+1) distinct cells minus the dropped numbers in range; for seg_gap > 0 '
               'two segments at distinct cells share no pixel (separating-axis argument over any ordered field, both orientations, with the '
-              'exact sin/cos tables of the edge normals proved over R) and, for pad >= 2, every segment pixel has row/column index in '
-              '[1, size-2] (clear of the border) — both also restated over the regenerated size / pitch / hex_to_rc expressions the driver runs; drawing and padding commute, cropping is sub-array extraction. PARTIAL: equal area up to edge sampling is checked on the real code only (no theorem); '
+              'exact sin/cos tables of the edge normals proved over R) and, for pad >= 2, every pixel of value 1 of a NON-ANTIALIASED segment has row/column index in '
+              '[1, size-2] (clear of the border; the half-pixel wider support of the antialiased default is judged by the oracle only) — both also restated over the regenerated size / pitch / hex_to_rc expressions the driver runs; drawing and padding commute, cropping is sub-array extraction. PARTIAL: equal area up to edge sampling is checked on the real code only (no theorem); '
               'float rounding of the edge test and of the ceil in the array size is not modelled.')
 LEVEL_NOTE = ('Trusted: Lean kernel, py2lean subset semantics, NumPy slicing/reshape/any/where semantics as modelled in '
               'Model/Geometry.lean, float sqrt/sin/cos (model run at Float, tolerance 1e-9; binary masks compared except where the '
